@@ -33,6 +33,7 @@ package state
 //@ ghost var GDebSum map[staking.Address]int
 //@ ghost var GWrites int
 //@ ghost var GNonce map[staking.Address]uint64
+//@ ghost var GClaim map[staking.Address]map[staking.StakeClaim]bool
 
 //@ ghost func QV(q *quantity.Quantity) int { return quantity.Val(q) }
 //@ ghost func AGen(a *staking.Account) int { return quantity.Val(&a.General.Balance) }
@@ -54,6 +55,7 @@ package state
 //@   ensures-trusted err != nil ==> result0 == nil
 //@   ensures-trusted err == nil ==> fresh(result0) && AGen(result0) == GGen[address] && AActB(result0) == GActB[address] && AActS(result0) == GActS[address] && ADebB(result0) == GDebB[address] && ADebS(result0) == GDebS[address]
 //@   ensures-trusted err == nil ==> AValid(result0)
+//@   ensures-trusted err == nil ==> (forall k staking.StakeClaim :: staking.HasClaim(&result0.Escrow.StakeAccumulator, k) == GClaim[address][k])
 //@   ensures-trusted err == nil ==> result0.General.Nonce == GNonce[address]
 //@   ensures-trusted err == nil ==> GAcctSum >= StoredSum(address)
 //@   ensures-trusted err != nil ==> unavail(err) || ufb("addrInvalid", address)
@@ -66,8 +68,10 @@ package state
 //@   trustframe
 //@   ensures-trusted err != nil ==> unavail(err)
 //@   requires account != nil
-//@   modifies GGen, GActB, GActS, GDebB, GDebS, GAcctSum, GWrites, GNonce, abciAPI.GTreeW
+//@   modifies GGen, GActB, GActS, GDebB, GDebS, GAcctSum, GWrites, GNonce, abciAPI.GTreeW, GClaim
 //@   ensures-trusted abciAPI.OnlyTree(s.ms)
+//@   ensures-trusted err == nil ==> (forall a staking.Address, k staking.StakeClaim :: GClaim[a][k] == ite(a == addr, staking.HasClaim(&account.Escrow.StakeAccumulator, k), old(GClaim[a][k])))
+//@   ensures-trusted err != nil ==> (forall a staking.Address, k staking.StakeClaim :: GClaim[a][k] == old(GClaim[a][k]))
 //@   ensures-trusted err == nil ==> mapEq(GNonce, upd(old(GNonce), addr, account.General.Nonce))
 //@   ensures-trusted err == nil ==> mapEq(GGen, upd(old(GGen), addr, AGen(account))) && mapEq(GActB, upd(old(GActB), addr, AActB(account))) && mapEq(GActS, upd(old(GActS), addr, AActS(account)))
 //@   ensures-trusted err == nil ==> mapEq(GDebB, upd(old(GDebB), addr, ADebB(account))) && mapEq(GDebS, upd(old(GDebS), addr, ADebS(account)))
@@ -366,7 +370,6 @@ package state
 
 // ---- stake claims (escrow account accumulator; balances are not touched) ----
 
-//@ ghost var GClaim map[staking.Address]map[staking.StakeClaim]bool
 // GClaim[a][c]: stake claim c is recorded in the escrow account of a.
 
 //@ func AddStakeClaim
@@ -391,17 +394,24 @@ package state
 // ---- stake accumulator cache queries used by the scheduler (C14) ----
 
 //@ func StakeAccumulatorCache.GetEscrowBalance
-//@   trusted
+//@   props C14 C17 C10
+//@   trustframe
 //@   modifies nothing
 //@   ensures err != nil ==> result0 == nil
-//@   ensures err == nil ==> result0 != nil && fresh(result0) && QV(result0) >= 0
-//@   note a clone of the cached account's active escrow balance (stored balances are valid quantities)
+//@   ensures err == nil ==> result0 != nil && fresh(result0)
+//@   ensures-trusted err == nil ==> QV(result0) >= 0
+//@   note verified (was trusted) except for the frame (the memo map of loaded accounts is filled; callers cannot observe it): a fresh clone of the cached account's active escrow balance; assumed: the balances of cached accounts are valid (non-negative) quantities
 
 //@ func StakeAccumulatorCache.getAccount
-//@   trusted
+//@   props C14 C17 C10
+//@   trustframe
 //@   modifies c.accounts
 //@   ensures (err == nil) == (result0 != nil)
-//@   note cached load of the account through the state accessor (the cache map is the only thing written)
+//@   ensures err == nil ==> c.accounts != nil && c.accounts[addr] == result0
+//@   ensures err == nil && !old(c.accounts != nil && inDom(c.accounts, addr) && c.accounts[addr] != nil) ==> fresh(result0) && AValid(result0) && (forall k staking.StakeClaim :: staking.HasClaim(&result0.Escrow.StakeAccumulator, k) == GClaim[addr][k])
+//@   ensures err == nil && old(c.accounts != nil && inDom(c.accounts, addr) && c.accounts[addr] != nil) ==> result0 == old(c.accounts[addr])
+//@   ensures forall a staking.Address :: a != addr ==> (inDom(c.accounts, a) == old(c.accounts != nil && inDom(c.accounts, a))) && (old(c.accounts != nil && inDom(c.accounts, a)) ==> c.accounts[a] == old(c.accounts[a]))
+//@   note verified (was trusted): the account comes from the cache if it is there, else from the state accessor, and is then cached; no other cache entry changes
 
 //@ func StakeAccumulatorCache.RemoveStakeClaim
 //@   trusted
